@@ -78,7 +78,36 @@ def check_model(m: onnx.ModelProto) -> list:
             problems.append(f"domain {d!r} is used but imported {doms.count(d2)} times")
     for f in m.functions:
         problems += check_function(f, model_imports=dict(imports))
+    problems += check_calls(m)
     return problems
+
+
+# domains whose operators are defined outside the model (ONNX itself, runtimes); a node in any OTHER domain is a call of a
+# model-local function and must find its FunctionProto in the model (none of the corpora uses runtime-provided custom operators)
+SCHEMA_DOMAINS = {"", "ai.onnx", "ai.onnx.ml", "ai.onnx.training", "ai.onnx.preview.training", "com.microsoft",
+                  "com.microsoft.nchwc", "com.microsoft.experimental", "org.pytorch.aten", "org.pytorch.prim"}
+
+
+def _walk_nodes(nodes):
+    for n in nodes:
+        yield n
+        for _, sg in _graph_attrs(n):
+            yield from _walk_nodes(sg.node)
+
+
+def check_calls(m: onnx.ModelProto) -> list:
+    problems = []
+    keys = [(f.domain, f.name, f.overload) for f in m.functions]
+    for k in set(keys):
+        if keys.count(k) > 1:
+            problems.append(f"function {k[0]}::{k[1]} is defined {keys.count(k)} times")
+    have = set(keys)
+    bodies = [("main", m.graph.node)] + [(f"function {f.name}", f.node) for f in m.functions]
+    for where, nodes in bodies:
+        for n in _walk_nodes(nodes):
+            if n.domain not in SCHEMA_DOMAINS and (n.domain, n.op_type, n.overload) not in have:
+                problems.append(f"{where}: node {n.domain}::{n.op_type} is neither an operator of a known domain nor a function of the model")
+    return sorted(set(problems))
 
 
 def check_function(f: onnx.FunctionProto, model_imports=None) -> list:
